@@ -99,7 +99,7 @@ def _ndim(name, n, batch):
 
 def cells(tier, seed):
     out = []
-    shapes = [(2, ()), (2, (2,))] if tier == "quick" else [(1, ()), (2, ()), (3, ()), (2, (2,)), (2, (1,)), (2, (2, 1))]
+    shapes = [(2, ()), (2, (2,))] if tier == "quick" else [(1, ()), (2, ()), (3, ()), (2, (2,)), (2, (2, 1))]
     group_size = 12
     quick_batched = {"Dense", "Diag", "Toeplitz", "Kronecker", "BlockDiag", "CatRows", "Interpolated", "BatchRepeat"}
     for name, b in BUILDERS.items():
@@ -116,7 +116,8 @@ def cells(tier, seed):
                 continue  # eigen-parametrised variants of Dense / Kronecker / Diag: indexing is covered by the plain builders
             if name == "Cat(Toeplitz,Diag)":
                 continue  # CatLinearOperator indexing is covered by CatRows / CatCols / CatBatch (all known-broken, F13)
-            for debug in ((True,) if tier == "quick" else (True, False)):
+            # settings.debug(False) skips the library's own index validation: explored for the base shape only (thorough)
+            for debug in ((True,) if (tier == "quick" or (n, batch) != (2, ())) else (True, False)):
                 out.append({"id": f"{name}/n{n}/b{'x'.join(map(str, batch)) or '-'}/d{int(debug)}/diag",
                             "params": {"builder": name, "n": n, "batch": list(batch), "group": "diag", "debug": debug}})
                 # the number of specs depends on ndim only; groups are formed inside the harness by index range
@@ -130,7 +131,7 @@ def cells(tier, seed):
 
 
 def explore_opts(params, tier):
-    return {"timeout_s": 0.6 if tier == "quick" else 30.0, "max_paths": 12,
+    return {"timeout_s": 0.6 if tier == "quick" else 5.0, "max_paths": 12,
             "engine_opts": {"cut_sites": ("make_sparse_from_indices_and_values",)}}
 
 
